@@ -247,7 +247,7 @@ def confirms(v, obs):
         return ("FAIL:" + v["assert_id"]) in items
     if k == "panic":
         return "PANIC" in items or obs == "CRASH"
-    if k == "unwind":
+    if k in ("unwind", "deadlock"):
         return obs == "HANG" or obs == "CRASH"
     if k in ("frame", "memory", "race", "ownership"):
         return any(i.startswith("FAIL:") for i in items) or (k == "ownership" and obs in ("CRASH", "HANG"))
@@ -402,9 +402,20 @@ def check_property(pid, tier, seed):
                     known_hit[idn] = known_ids[idn]
                     continue
                 todo.append(v)
-            if len(todo) > 12:
-                rep["violations_not_replayed"] = len(todo) - 12
-                todo = todo[:12]
+            if len(todo) > 24:
+                # replay a spread of the reported identities: round-robin over (kind, assertion) groups,
+                # evenly spaced inside each group, 24 in all
+                rep["violations_not_replayed"] = len(todo) - 24
+                groups = {}
+                for v in todo:
+                    groups.setdefault((v["kind"], v["assert_id"]), []).append(v)
+                picked = []
+                per = max(1, 24 // len(groups))
+                for g in groups.values():
+                    step = max(1, len(g) // per)
+                    picked += g[::step][:per]
+                rest = [v for v in todo if v not in picked]
+                todo = (picked + rest)[:24]
             # native runs: violation vectors + sampled path witnesses (translator validation)
             smp = [s for s in res.get("samples", [])]
             vectors = [v["vector"] for v in todo] + [s["vector"] for s in smp]
@@ -418,11 +429,14 @@ def check_property(pid, tier, seed):
             race_log = None
             for i, v in enumerate(todo):
                 idn = ident(ob["id"], v)
-                if v["kind"] in ("race", "ownership") and ob.get("native_race_entry"):
+                if v["kind"] in ("race", "ownership", "deadlock") and ob.get("native_race_entry") and not confirms(v, nat[i]):
                     if race_log is None:
-                        robs, race_log, _ = native_run(ob["native_race_entry"], used, [[0], [1]], dropped_files, timeout_s=120, race=True)
+                        robs, race_log, _ = native_run(ob["native_race_entry"], used, [[0], [1], [2], [3]], dropped_files, timeout_s=120, race=True)
                         race_log = (race_log or "") + " ".join(o or "" for o in robs)
-                    if "DATA RACE" in race_log or "FAIL:" in race_log or "fatal error" in race_log:
+                    if v["kind"] == "deadlock":
+                        if "HANG" in race_log or "test timed out" in race_log or "all goroutines are asleep" in race_log:
+                            nat[i] = "HANG"
+                    elif "DATA RACE" in race_log or "FAIL:" in race_log or "fatal error" in race_log:
                         nat[i] = "FAIL:native-race-detector"
                 if confirms(v, nat[i]):
                     h = hashlib.sha1(idn.encode()).hexdigest()[:10]
